@@ -201,3 +201,29 @@ def run(repo: Repo, rep: Report, tier: str) -> None:
     rep.check(ok, "generic-loops", "dimse_messages.DIMSEMessage.message_to_primitive", "for elem in command_set: setattr(primitive, keyword, value) with VM>1 truncated only outside _MULTIVALUE_TAGS", "every decoded element the primitive knows must be copied; lists only for the multi-valued tags", mod=dm, node=m2)
     ds = [s for s in walk_no_nested(m2) if isinstance(s, ast.stmt) and norm(s) in ("setattr(primitive, dataset_keyword, self.data_set)", "dataset_keyword = _DATASET_KEYWORDS[cls_type_name]", "primitive._context_id = self.context_id")]
     rep.check(len(ds) == 3, "generic-loops", "dimse_messages.DIMSEMessage.message_to_primitive", "data set and context id handed to the primitive", "the data-set bytes and the context id must reach the primitive", mod=dm, node=m2)
+    _delegate_c15(repo, rep, tier)
+
+
+def _delegate_c15(repo, rep, tier):
+    """The conversion chain of the property includes encode_msg / decode_msg: a primitive's data-set
+    (and command-set) bytes only survive if the fragments written are exactly the fragments read.
+    C15 decides that; its failures are failures of this round trip too."""
+    from ..report import Report as _R
+    from . import c15
+
+    rep.rule("encode-roundtrip", "encode_msg / decode_msg carry the command-set and data-set bytes unchanged for every length (C15's fragmentation rules)")
+    sub = _R("C15", tier, c15.LEVEL, "")
+    c15.run(repo, sub, tier)
+    n = 0
+    for o in sub.obligations:
+        if o["ok"]:
+            n += 1
+    rep.ok("encode-roundtrip", f"{n} fragmentation obligations (C15) hold", "")
+    for f in sub.failures:
+        f2 = dict(f)
+        f2["rule"] = "encode-roundtrip"
+        f2["detail"] = f["detail"] + " - the message's bytes do not survive encode_msg -> decode_msg for some length, so the primitive does not round-trip"
+        rep.obligations.append(f2)
+        rep.failures.append(f2)
+    for d in sub.deferred:
+        rep.defer(d)
